@@ -167,6 +167,26 @@ def lake_unlock():
         fcntl.flock(_lock_fd, fcntl.LOCK_UN)
 
 
+# checks of the same property (or of properties that regenerate the same Generated/*.lean file) must not overlap: a run
+# against a scratch tree regenerates those files from ITS source
+LOCK_GROUPS = {'C02': ['loaders'], 'C05': ['loaders'], 'C18': ['loaders'], 'C04': ['bitconsts'], 'C16': ['bitconsts']}
+_prop_locks = []
+
+
+def property_lock(pid):
+    """block until no other check of this property (or of its generated-file group) is running in this /verif"""
+    import fcntl
+    d = VERIF / '.locks'
+    try:
+        d.mkdir(exist_ok=True)
+        for name in sorted(set([pid] + LOCK_GROUPS.get(pid, []))):
+            fd = open(d / (name + '.lock'), 'w')
+            fcntl.flock(fd, fcntl.LOCK_EX)
+            _prop_locks.append(fd)          # held until the process exits
+    except OSError as e:
+        log('[lock] no property lock (%s); continuing without' % e)
+
+
 def lake_build(targets, timeout=3000):
     lake_lock()
     try:
@@ -508,6 +528,7 @@ def main(pid, tier=None, replay=None):
     if tier not in ('quick', 'thorough'):
         tier = 'quick'
     seed = int(os.environ.get('VERIF_SEED', '0') or 0)
+    property_lock(pid)
     setup_import_path()
     ctx = Ctx(pid, tier, seed)
     _generated_snapshot = {}
